@@ -286,7 +286,9 @@ def run_designer_case(case):
         # persist the state, build a NEW instance from (problem, seed), load the state into it
         md = d.dump()
         if isinstance(d, vza.PartiallySerializableDesigner):
-          d = designer_factory(case['designer'], case.get('opts'))(problem, seed=case['seed'])
+          # the service rebuilds the designer WITHOUT the original seed (the policy's factory call) and relies on
+          # load() to restore everything that determines the continuation
+          d = designer_factory(case['designer'], case.get('opts'))(problem, seed=None if case.get('restore') == 'seedless' else case['seed'])
           d.load(md)
         else:
           d = type(d).recover(md)
